@@ -88,3 +88,12 @@ def tokenize_fence_branch():
             lexer,
         )
     return _CACHE["fence"]
+
+
+def tokenize_number_branch():
+    """NUMBER branch of lexer.tokenize: matched_text -> (value, raw_lexeme)."""
+    if "number" not in _CACHE:
+        from octave_mcp.core import lexer
+
+        _CACHE["number"] = branch_of(lexer.tokenize, "token_type == TokenType.NUMBER", ["matched_text"], ["value", "raw_lexeme"], lexer)
+    return _CACHE["number"]
